@@ -61,7 +61,7 @@ def _check_shift(case):
             summ.append("!")
             continue
         summ.append(str(len(exp)))
-        if mode == "silence" and exact != "loose" and len(exp) == len(E) and all(x[0] + F(off) >= 0 for x in E):
+        if mode == "silence" and exact != "loose" and len(exp) == len(E) and all(x[0] + F(off) >= 0 and x[0] >= 0 for x in E):   # nothing clipped on the way out or back
             n += 1
             st2, back, _ = call(r.editTimestamps, -off, "silence")
             if st2 == "exc":
@@ -340,6 +340,16 @@ def parts(tier):
             for off in (2.0 ** -7, 0.5, 2.0, -(2.0 ** -7), -0.5):
                 yield ("P", p, B[0], B[-1], off, True)
 
+        # tiers that start before time 0 (a span of -3 .. 2): what ends up wholly before 0 is dropped and what crosses 0 is clipped whichever way,
+        # and however far, the tier was moved - also by 0 and by a positive offset that does not carry an entry across 0
+        NG = (-3.0, -2.0, -1.0, 0.0, 1.0, 2.0)
+        for s_ in D.interval_sets(NG, 2):
+            for off in (0.0, 0.5, 1.0, 2.5, 3.0, -0.5):
+                yield ("I", D.labelled(s_), -3.0, 2.0, off, True)
+        for s_ in D.point_sets(NG, 2):
+            for off in (0.0, 0.5, 1.0, 2.5, 3.0, -0.5):
+                yield ("P", D.labelled_points(s_), -3.0, 2.0, off, True)
+
         # the size axis: long tiers (every entry's leaving the old span must be noticed, whatever its index)
         for n, layout, e in D.size_family(quick):
             hi_ = e[-1][1]
@@ -355,7 +365,7 @@ def parts(tier):
         "shift-tiers", gen_shift, _check_shift,
         rule="all interval sets (<=3) and point subsets (<=3) of the 5-point unit grid incl. empty x 3 spans x offsets "
              "%s (bit-exact), and decimal tiers x offsets %s (1e-9); each case runs 3 reporting modes and the +x/-x round "
-             "trip; also long tiers (%s entries) x 4 offsets; also tiers on the far-from-zero grid 2**40 + {0, 2**-7, ..., 4} x offsets {+-2**-7, +-0.5, 2} (bit-exact); "
+             "trip; also long tiers (%s entries) x 4 offsets; also tiers on the far-from-zero grid 2**40 + {0, 2**-7, ..., 4} x offsets {+-2**-7, +-0.5, 2} (bit-exact); also tiers spanning -3 .. 2 (entries before time 0) x offsets {0, 0.5, 1, 2.5, 3, -0.5}; "
              "non-trivial = distinct (type, size, clip class none/some/all, left-old-span, sign)" % (OFFS, DOFFS, list(D.SIZES_QUICK if quick else D.SIZES_THOROUGH)),
         bounds={"grid_points": 5, "max_entries": 3}))
 
